@@ -1183,6 +1183,14 @@ func (i *recursivePropIter) next() (propIterItem, iterNextFunc) {
 		name := item.name.string()
 		if _, exists := i.seen[name]; !exists {
 			i.seen[name] = struct{}{}
+			if item.enumerable == _ENUM_UNKNOWN && item.value == nil {
+				// the key's attributes are those of the object in the chain that produced it
+				if prop := i.o.getOwnPropStr(name); prop != nil {
+					item.value = prop
+				} else {
+					item.enumerable = _ENUM_FALSE
+				}
+			}
 			return item, i.next
 		}
 	}
